@@ -106,6 +106,10 @@ def judge(acc, rk, case, data: bytes, allowed, cache=None, mem: bool = False) ->
         acc.outcome("returned")
     elif st == "net":
         acc.outcome("needs-network")
+    elif st == "budget" and "blocked" in str(v):
+        # the call waits for something an EARLIER call of this shard left behind: only the whole history reproduces it
+        acc.violate("budget:blocked", ["shard", _cur["shard"], _cur["tier"]] if cache is not None and _cur["shard"] else case, {"blocked_at": case, "detail": str(v)}, size=10**5)
+        acc.outcome("BUDGET")
     elif st == "budget":
         acc.violate("budget:" + ("kdf" if "KDF" in str(v) else "steps"), case, {"len": len(data), "detail": str(v), "data": data[:200].hex()}, size=len(data))
         acc.outcome("BUDGET")
@@ -143,8 +147,12 @@ def other_root(seed: int):
     return seams.make_root(seams.Drbg(("C05-other", seed)), "SHA256")
 
 
+_cur: t.Dict[str, t.Any] = {"shard": None, "tier": None}
+
+
 def run_shard(shard, tier, seed, acc) -> None:
     worker_init()
+    _cur.update(shard=shard, tier=tier)
     allowed = allowed_types()
     what = shard[0]
     n = 0
